@@ -325,6 +325,17 @@ func Check[C any](t *testing.T, p Prop[C]) {
 	rapid.Check(t, func(rt *rapid.T) {
 		c := p.Gen(rt)
 		out := watched(p.ID, test, c, func() Outcome { return p.Run(t, c) })
+		if out.Violation != "" && Mode == "coop" {
+			// a cooperative schedule is a function of the case - unless the Go runtime itself switches goroutines (a
+			// goroutine that has been on the processor for more than 10 ms of wall time, e.g. because the machine is
+			// busy, is asked to yield at its next function call, async pre-emption off or not). A violation that
+			// such a switch produced does not come back; one that the case produces does. It has to come back twice.
+			for again := 0; again < 2 && out.Violation != ""; again++ {
+				if o2 := watched(p.ID, test, c, func() Outcome { return p.Run(t, c) }); o2.Violation == "" {
+					out = Outcome{Labels: []string{"unconfirmed-under-replay"}, Harness: "a violation did not reproduce on an immediate re-run of the same case (runtime-induced schedule noise): " + oneLine(out.Violation)}
+				}
+			}
+		}
 		account(c, out, true)
 		if out.Violation != "" {
 			raw := canon(c)
